@@ -71,3 +71,44 @@ Example C12_bytes_example :
   contains_w (enc (VArr [VNum (NInt 7); VStr [97]])) (enc (VNum (NFloat 4619567317775286272))) = Ok true /\
   contains_w (enc (VArr [VArr [VNum (NInt 7)]])) (enc (VNum (NInt 7))) = Ok false.
 Proof. vm_compute. repeat split; reflexivity. Qed.
+
+(* ---- the specification itself, written from the property text (ContainSpec.v): an inductive relation with one rule
+   per sentence -- equal scalars; object/object when every member of b is contained in the member of a under the same
+   key; array/array when every element of b is contained in SOME element of a -- plus the top-level rule for a bare
+   scalar.  No length test, no variant test, no lookup, no scalar/container split: those are implementation choices of
+   the Rust function and are shown here to be consequences.  The executable `contains_t` (hence, by C12_contains_bytes,
+   what the byte walker returns) decides exactly this relation on documents with unique sorted keys. *)
+From JB Require Import ContainSpec ContainSpecProofs.
+Theorem C12_contains_is_the_declarative_relation :
+  forall a b, wf_shape a = true -> wf_shape b = true -> (contains_t a b = true <-> contains_top a b).
+Proof. exact contains_t_spec. Qed.
+Print Assumptions C12_contains_is_the_declarative_relation.
+
+Theorem C12_contains_bytes_is_the_declarative_relation :
+  forall a b, wfb a = true -> wfb b = true -> top_ok a -> top_ok b ->
+  exists r, contains_w (enc a) (enc b) = Ok r /\ (r = true <-> contains_top a b).
+Proof.
+  intros a b Wa Wb Ta Tb. exists (contains_t a b). split; [apply contains_w_enc; assumption|].
+  apply contains_t_spec; [unfold wfb in Wa|unfold wfb in Wb]; apply andb_true_iff in Wa, Wb; tauto.
+Qed.
+Print Assumptions C12_contains_bytes_is_the_declarative_relation.
+
+(* not vacuous: the relation holds for the nested example above by explicit rule applications (no computation of
+   contains_t involved), and fails in the other direction *)
+Example C12_declarative_example :
+  contains_top c12_left c12_right /\ ~ contains_top c12_right c12_left /\
+  contains_top (VArr [VNum (NInt 7); VStr [97]]) (VNum (NFloat 4619567317775286272)) /\
+  ~ contains_top (VArr [VArr [VNum (NInt 7)]]) (VNum (NInt 7)).
+Proof.
+  split; [|split; [|split]].
+  - left. apply contained_objects. intros k bv [E|[]]. injection E as <- <-.
+    eexists. split; [left; reflexivity|]. apply contained_arrays. intros bv [<-|[<-|[<-|[]]]].
+    + eexists. split; [right; right; right; left; reflexivity|]. apply contained_arrays. intros bv [<-|[]].
+      eexists. split; [right; left; reflexivity|]. apply contained_scalars. repeat split; vm_compute; reflexivity.
+    + eexists. split; [right; right; left; reflexivity|]. apply contained_objects. intros k bv [E|[]]. injection E as <- <-.
+      eexists. split; [left; reflexivity|]. apply contained_scalars. repeat split; vm_compute; reflexivity.
+    + eexists. split; [left; reflexivity|]. apply contained_scalars. repeat split; vm_compute; reflexivity.
+  - intros H. apply C12_contains_is_the_declarative_relation in H; [|reflexivity|reflexivity]. vm_compute in H. discriminate H.
+  - right. eexists. split; [reflexivity|]. split; [reflexivity|]. eexists. split; [left; reflexivity|]. repeat split; vm_compute; reflexivity.
+  - intros H. apply C12_contains_is_the_declarative_relation in H; [|reflexivity|reflexivity]. vm_compute in H. discriminate H.
+Qed.
